@@ -6,7 +6,7 @@
 From Coq Require Import Floats Permutation.
 From JM Require Import Model.Base Model.Num Model.Value Model.Interp Model.Api
      Spec.Grammar Spec.Semantics Proofs.ValueFacts Proofs.InterpRefine Proofs.Contexts Proofs.CtxFacts
-     Inst.FloatNum Run.Checker.
+     Proofs.ParserComplete Proofs.LexText Proofs.LexAdj Proofs.LexExact Proofs.PipeText Inst.FloatNum Run.Checker.
 
 Section C15.
 Context {NumO : NumOps}.
@@ -43,6 +43,21 @@ Theorem C15_replace_by_literal :
     eval ord e d = Ok v -> eval ord (rplug c e) d = eval ord (rplug c (ELit v)) d.
 Proof. exact (replace_by_literal ord). Qed.
 
+(* from bytes: for ANY two texts A and B that read as expressions (Lex: the lexical
+   grammar; reads_as ... (render a): token by token the spelling of a well-precedenced
+   tree), Search on the text "A | B" is Search on B of the result of Search on A, and
+   fails exactly when a step fails — also when B contains pipes itself (the pipe is
+   the loosest operator and associates).  lit_text: the JSON text chosen for a
+   literal (lit_spec, satisfiable: C04_lit_text_exists). *)
+Theorem C15_pipe_from_bytes :
+  forall lit_text : value -> bytes, lit_spec lit_text ->
+  forall (sa sb : bytes) la lb (a b : expr) d,
+    Lex sa la -> reads_as la (render lit_text a) -> wp a = true -> npos a = true ->
+    Lex sb lb -> reads_as lb (render lit_text b) -> wp b = true -> npos b = true ->
+    plain d = true ->
+    Api.search ord (pipe_text sa sb) d = (x <- Api.search ord sa d ;; Api.search ord sb x).
+Proof. exact (fun lt ok => search_pipe_text lt ok ord ord_perm). Qed.
+
 End C15.
 
 Print Assumptions C15_pipe_is_composition.
@@ -50,6 +65,7 @@ Print Assumptions C15_pipe_fails_exactly_when_a_step_fails.
 Print Assumptions C15_pipe_on_the_interpreter.
 Print Assumptions C15_referential_transparency.
 Print Assumptions C15_replace_by_literal.
+Print Assumptions C15_pipe_from_bytes.
 
 Definition d0 : @value FloatNum := VObj [(str "a", VArr [VNum 3%float; VNum 1%float])].
 Example C15_example :
@@ -59,4 +75,8 @@ Example C15_example :
                    (compile (EMSList [EIdent false (str "a"); ECurrent])) d0)
                 (search_compiled (fun m => m)
                    (compile (EMSList [ELit (VArr [VNum 3%float; VNum 1%float]); ECurrent])) d0))%bool = true.
+Proof. vm_compute. reflexivity. Qed.
+
+Example C15_pipe_text_example :
+  (bytes_eqb (pipe_text (str "a[0]") (str "b | c")) (str "a[0] | b | c"))%bool = true.
 Proof. vm_compute. reflexivity. Qed.
